@@ -38,7 +38,7 @@ def main():
         })
     m = {
         'version': 1,
-        'setup_cmd': 'cd lean && lake build',
+        'setup_cmd': 'bin/setup',
         'hooks': {
             'guard': 'GLOM_VERIF',
             'enable': 'no hooks are needed: checks import glom from /repo as it is (editable install) and observe it through documented extension points (scope={glom.glom: tracer}, instrumented callables and containers)',
